@@ -184,10 +184,12 @@ def privAddrString (C : WalletCrypto) (a : PrivAddr) : Except Fail Bytes :=
     .ok (Base58.encode (buf ++ (C.shaHash buf).take 4))
   else .error .panic
 
-inductive WifErr | b58 | short | long | checksum
+inductive WifErr | b58 | short | long | checksum | flag
   deriving Repr, DecidableEq
 
-/-- `DecodePrivateAddr` -/
+/-- `DecodePrivateAddr`. Since the `fix:` commit for finding `wif-flag-byte-unchecked` the code refuses a
+    38-byte payload whose byte 33 (the compression flag) is not 01 (`.flag`, tested after the checksum);
+    before, such a payload was taken as an uncompressed key. -/
 def decodePrivateAddr (C : WalletCrypto) (s : Bytes) : Except WifErr (Except Fail PrivAddr) :=
   match Base58.decode s with
   | none => .error .b58
@@ -195,6 +197,7 @@ def decodePrivateAddr (C : WalletCrypto) (s : Bytes) : Except WifErr (Except Fai
     if pkb.length < 37 then .error .short
     else if pkb.length > 38 then .error .long
     else if (C.shaHash (pkb.take (pkb.length - 4))).take 4 ≠ pkb.drop (pkb.length - 4) then .error .checksum
+    else if pkb.length = 38 ∧ pkb.getD 33 0 ≠ 1 then .error .flag
     else .ok (newPrivateAddr C ((pkb.drop 1).take 32) (pkb.headD 0) (pkb.length = 38 ∧ pkb.getD 33 0 = 1))
 
 end GocoinV.HD
